@@ -30,6 +30,7 @@ def check(ctx, args):
         ctx.property_theorems()
     if not (okb and okm):
         return ctx.finish("proof")
+    nknown = pipelib.run_known_corpus(ctx)
     quick = ctx.tier == "quick"
     nprog = 60 if quick else 800
     scheds = [None, "%d:200" % (ctx.seed * 13 + 5)] if quick else \
